@@ -165,6 +165,36 @@ def _violates(mod, case, klass, sig_keys=None, run_cap_s=20.0):
     return None
 
 
+def _violates_isolated(mod, case, klass, run_cap_s=120.0):
+    """`_violates` in a forked child: a defect that damages process-global state (a registry, a lock, a C
+    library) would otherwise make every later candidate of the same shrink session "fail" too, and the
+    search would descend to a case that does not fail at all in a fresh interpreter."""
+    r, w = os.pipe()
+    pid = os.fork()
+    if pid == 0:
+        code = 0
+        try:
+            os.close(r)
+            out = _violates(mod, case, klass, run_cap_s=run_cap_s)
+            payload = None if out is None else {"case": out[0].get("case", case), "violation": out[1]}
+            with os.fdopen(w, "w") as f:
+                json.dump(payload, f, default=str)
+        except BaseException:  # noqa: BLE001
+            code = 3
+        finally:
+            os._exit(code)
+    os.close(w)
+    with os.fdopen(r) as f:
+        data = f.read()
+    os.waitpid(pid, 0)
+    if not data:
+        return None
+    payload = json.loads(data)
+    if payload is None:
+        return None
+    return {"case": payload["case"]}, payload["violation"]
+
+
 def _worker_shrink(cid, case, violation, budget_s):
     """Greedy descent over the check's shrink candidates, keeping the same violation class."""
     mod = _W["mod"]
@@ -172,7 +202,7 @@ def _worker_shrink(cid, case, violation, budget_s):
     t0 = time.monotonic()
     tries = accepted = 0
     cur, cur_v = case, violation
-    first = _violates(mod, cur, klass)
+    first = _violates_isolated(mod, cur, klass)
     if first is None:
         return {"case": case, "violation": violation, "tries": 0, "accepted": 0,
                 "reproduced": False}
@@ -186,7 +216,7 @@ def _worker_shrink(cid, case, violation, budget_s):
             if time.monotonic() - t0 > budget_s:
                 break
             tries += 1
-            r = _violates(mod, cand, klass)
+            r = _violates_isolated(mod, cand, klass)
             if r is not None:
                 cur = r[0].get("case", cand)
                 cur_v = r[1]
@@ -387,16 +417,17 @@ def run_check(cid: str, tier: str, seed: int, runs=None, wall=None, workers=None
 
         # ---- shrink + replay files ---------------------------------------------------------
         reported = []
-        seen_sigs = set()
+        seen_sigs = set()  # signatures already REPORTED (a follow-on with the same signature as the root
+        attempts = 0       # cause must not hide the root cause, so unreproduced ones are not remembered)
         unreproduced = []
         # earliest run first: later violations in a long-lived worker may be follow-on damage
         cands = sorted(agg["violations"], key=lambda it: (not isinstance(it["run"], int), str(it["run"]).zfill(12)))
         for item in cands:
             v = item["violation"]
             key = canonical([v["klass"], v.get("sig", {})])
-            if key in seen_sigs or len(reported) >= 3:
+            if key in seen_sigs or len(reported) >= 3 or attempts >= 12:
                 continue
-            seen_sigs.add(key)
+            attempts += 1
             if item.get("no_replay"):
                 shrunk = {"case": item["case"], "violation": v, "tries": 0, "accepted": 0,
                           "reproduced": False}
@@ -416,6 +447,7 @@ def run_check(cid: str, tier: str, seed: int, runs=None, wall=None, workers=None
                 if not shrunk.get("reproduced"):
                     unreproduced.append((item, shrunk))
                     continue
+            seen_sigs.add(key)
             path = write_replay(cid, seed, item["run"], shrunk, item["case"])
             ok = False
             if not item.get("no_replay"):
